@@ -36,6 +36,15 @@ def mkstart(kind, names, allow):
     return {"line": line, "key": line if names else None, "tags": {"src": "start-" + kind, "nchan": len(names), "nallow": len(allow), "nreq": 0}}
 
 
+def mkmulti(op, names, allows, reqs):
+    line = "%s %d %s %d %s %d %s" % (op, len(names), " ".join(hx(n) for n in names), len(allows),
+                                     " ".join("%d %s" % (len(al), " ".join(hx(n) for n in al)) for al in allows),
+                                     len(reqs), " ".join(hx(n) for n in reqs))
+    line = " ".join(line.split())
+    return {"line": line, "key": line if names and len(allows) > 1 else None,
+            "tags": {"src": op, "nchan": len(names), "nallow": len(allows), "nreq": len(reqs)}}
+
+
 def gen(rng):
     k = rng.range(0, 6)
     names = [rng.choice(BASE) for _ in range(k)]
@@ -63,6 +72,24 @@ def cases(tier, rng):
             else:
                 reqs.append(variants(rng, rng.choice(names) if names and rng.chance(2, 3) else rng.choice(BASE)))
         cs.append(mk(names, allow, reqs, "handler"))
+    # several endpoints over one table (servers started one after the other; websocket paths of one http server)
+    for _ in range(300 if thorough else 40):
+        names, _ = gen(rng)
+        if len(names) < 2:
+            names = list(dict.fromkeys(names + [b"web", b"web2"]))
+        allows = []
+        for _e in range(rng.range(2, 4)):
+            a = rng.range(0, 2)
+            allows.append([rng.choice(names) if rng.chance(5, 6) else variants(rng, rng.choice(BASE)) for _ in range(a)])
+        reqs = list(dict.fromkeys([rng.choice(names) for _ in range(3)] + [variants(rng, rng.choice(names))]))
+        cs.append(mkmulti("c03multi", names, allows, reqs))
+    for _ in range(60 if thorough else 8):
+        names, _ = gen(rng)
+        if len(names) < 2:
+            names = list(dict.fromkeys(names + [b"web", b"web2"]))
+        allows = [[rng.choice(names)] if rng.chance(3, 4) else [] for _e in range(rng.range(2, 3))]
+        reqs = list(dict.fromkeys([rng.choice(names) for _ in range(2)] + [variants(rng, rng.choice(names))]))[:3]
+        cs.append(mkmulti("c03http", names, allows, reqs))
     for kind in ("socket", "packet", "dns", "stdio"):
         for _ in range(150 if thorough else 25):
             names, allow = gen(rng)
@@ -82,6 +109,8 @@ def oracle(case, impl):
     p = impl.split()
     if not p or p[0] in ("panic", "died", "timeout", "harness-error", "handler-error", "client-error"):
         return [("crash", "routing case failed to run: " + impl[:200])]
+    if toks[0] in ("c03multi", "c03http"):
+        return oracle_multi(toks, p, case)
     if toks[0] != "c03":
         return []
     names, pos = parse_names(toks, 1)
@@ -129,6 +158,61 @@ def oracle(case, impl):
                 out.append(("refused-configured", "request %r is configured and allowed but was refused" % (r,)))
     if sorted(dials) != sorted(expect_dials):
         out.append(("stray-dial", "dial log %r does not match the connections handed out %r" % (dials, expect_dials)))
+    return out
+
+
+def oracle_multi(toks, p, case):
+    names, pos = parse_names(toks, 1)
+    nend = int(toks[pos])
+    pos += 1
+    allows = []
+    for _ in range(nend):
+        al, pos = parse_names(toks, pos)
+        allows.append(al)
+    reqs, _ = parse_names(toks, pos)
+    out = []
+    # split the observation per endpoint
+    sep = "ep" if toks[0] == "c03multi" else "path"
+    if p[0] == "abort":
+        return []
+    chunks = []
+    for x in p:
+        if x == sep:
+            chunks.append([])
+        elif chunks:
+            chunks[-1].append(x)
+    if len(chunks) != nend:
+        return [("crash", "unexpected observation: " + " ".join(p)[:200])]
+    for al, ch in zip(allows, chunks):
+        if ch and ch[0] == "err":
+            continue
+        if ch and ch[0] == "ok":
+            n = int(ch[1])
+            ch = ch[2 + n:]
+        res = []
+        j = 0
+        while j < len(ch):
+            if ch[j] == "dial":
+                res.append(int(ch[j + 1]))
+                j += 2
+            else:
+                res.append(None if ch[j] == "refused" else ch[j])
+                j += 1
+        if len(res) != len(reqs):
+            out.append(("crash", "request/answer count mismatch"))
+            continue
+        for r, got in zip(reqs, res):
+            allowed = (not al) or (r in al)
+            idx = names.index(r) if r in names else None
+            if isinstance(got, str):
+                out.append(("hang", "request %r on endpoint %r ended as %s" % (r, al, got)))
+            elif got is not None:
+                if idx is None or names[got] != r:
+                    out.append(("wrong-target", "endpoint %r: request %r was connected to target %d (%r)" % (al, r, got, names[got] if got < len(names) else None)))
+                elif not allowed:
+                    out.append(("exposed", "endpoint with allow-list %r connected request %r" % (al, r)))
+            elif idx is not None and allowed:
+                out.append(("refused-configured", "endpoint %r refused the configured, allowed request %r" % (al, r)))
     return out
 
 
